@@ -174,10 +174,25 @@ def build(active_known=frozenset()):
         )
 
     c.ensures("the answer is cached under the dispatch value and no other cache entry changes", post_cache)
+    def some_match_dominates(a):
+        st = a.pre.st
+        return z3.Exists([y], z3.And(matches(st, a.self, a.key, y), z3.ForAll([x], z3.Implies(matches(st, a.self, a.key, x), DOM(st, a.self, y, x)), patterns=[ISA(HCUR, a.key, x)])))
+
+    def comparable_when_unique(a):
+        """Carve-out of the known finding C18-eager-ambiguity: when some match dominates all matches, every two matches are
+        comparable (then the loop's pairwise test against the best key so far cannot fail before the dominating one is seen)."""
+        st = a.pre.st
+        mt = lambda v: matches(st, a.self, a.key, v)  # noqa: E731
+        ik = lambda v: ISA(HCUR, a.key, v)  # noqa: E731
+        return z3.Implies(some_match_dominates(a),
+                          z3.ForAll([x, y], z3.Implies(z3.And(mt(x), mt(y)), z3.Or(DOM(st, a.self, x, y), DOM(st, a.self, y, x))), patterns=[z3.MultiPattern(ik(x), ik(y))]))
+
+    if "C18-eager-ambiguity" in active_known:
+        c.requires("[carve-out of known finding C18-eager-ambiguity] if some match dominates every match, any two matches are comparable", comparable_when_unique)
     c.raises_only_if(
-        "an ambiguity error is raised only if two matching keys do not dominate each other in the required direction",
+        "an ambiguity error is raised only when the choice is ambiguous: no matching key dominates every matching key",
         (Exception,),
-        lambda a: z3.Exists([x, y], z3.And(matches(a.pre.st, a.self, a.key, x), matches(a.pre.st, a.self, a.key, y), z3.Not(DOM(a.pre.st, a.self, x, y)))),
+        lambda a: z3.Not(some_match_dominates(a)),
     )
 
     def find_inv(ctx):
